@@ -362,11 +362,31 @@ func (e *Engine) loadLoc(st *State, loc *Loc) Val {
 			out.L[i] = Select(Select(h, loc.Base), loc.Idx)
 		}
 		return out
+	case LocArr:
+		ls := e.lay.Leaves(loc.ElemT)
+		out := Val{T: loc.T}
+		for j := 0; j < loc.N; j++ {
+			for i := range ls {
+				out.L = append(out.L, Select(Select(e.getSliceHeap(st, loc.ElemT, i), loc.Base), IntLit(int64(j))))
+			}
+		}
+		return out
 	}
 	panic("internal: bad loc kind")
 }
 
 func (e *Engine) storeLoc(st *State, loc *Loc, v Val) {
+	if loc.Kind == LocArr {
+		ls := e.lay.Leaves(loc.ElemT)
+		for j := 0; j < loc.N; j++ {
+			for i := range ls {
+				h := e.getSliceHeap(st, loc.ElemT, i)
+				row := Select(h, loc.Base)
+				e.setSliceHeap(st, loc.ElemT, i, e.nameTerm(st, e.sliceHeapKey(loc.ElemT, i), Store(h, loc.Base, Store(row, IntLit(int64(j)), v.L[j*len(ls)+i]))))
+			}
+		}
+		return
+	}
 	if len(v.L) != loc.N {
 		panic(fmt.Sprintf("internal: store of %d leaves into location of %d (%s into %s)", len(v.L), loc.N, v.T, loc.T))
 	}
